@@ -6,17 +6,27 @@ the set of mutable objects reachable from a yielded context must be disjoint fro
 of every value that was filled and from every context yielded earlier (object-identity graph; all inspected objects
 are kept alive while ids are compared).  A behavioural cross-check (the "so that ..." clause) runs a twin element
 that never sees a mutation: the mutated element must yield what the twin yields, and the filled values must not
-change when a yielded context is mutated.
+change when a yielded context is mutated.  Besides "call compute()/request(), then mutate" (ops C, M) there is the
+op I: the generator is consumed value by value and every yielded context is mutated BEFORE the generator is resumed
+(what a following Variable / UpdateContext / MakeFilename does), so that the later yields of the same call are
+inspected after the earlier ones were changed.  Configurations whose compute() yields several values per call
+(multi-valued sums inside Mean / Vectorize / SplitIntoBins, Vectorize over a Split of accumulators, Split / Zip of
+Vectorize) make "a context it yielded earlier" range over the yields of one call as well.
 
 Part B (first sentence): Split driven by run, by fill/compute and by fill/request, and Zip driven by fill/compute and
 fill/request, with branches that mutate data and context in place (user mutator, Variable, UpdateContext,
 MakeFilename, Count).  Probes placed at the entry and at the exit of every branch record what the branch saw and
 produced; the reference is the same branch driven alone on a private deep copy of the flow, plus the pristine flow
-itself for the branch entry, plus disjointness of the identity graphs of different branches."""
+itself for the branch entry, plus disjointness of the identity graphs of different branches.
+Branches that stop (LenaStopFill) are enumerated separately: a fill/compute or fill/request branch with an in-place
+mutator BEFORE a Slice(K) stands at every position of branch lists of length 2..4, for every K and bufsize (so the
+stop falls on the first, a middle and the last value of a block, in the first and in later blocks, on the last value
+of the flow or before it): whatever the stopped branch consumed must not reach the branches behind it."""
 import copy
 import decimal
 import itertools
 import os
+import re
 import sys
 import types
 
@@ -184,6 +194,29 @@ class TwoSums(object):
         self.t = 0
 
 
+class ManySums(TwoSums):
+    """three values per compute(): bare, with a nested context, with another context"""
+
+    def compute(self):
+        yield self.t
+        yield (self.t * 2, {"two": {"k": [1]}})
+        yield (self.t * 3, {"three": [3], "two": {"j": 0}})
+
+
+class Stamp(object):
+    """a downstream element that updates every context that passes in place, each time with another content"""
+
+    def __init__(self):
+        self.k = 0
+
+    def __call__(self, value):
+        data, context = lena.flow.get_data_context(value)
+        context.setdefault("stamps", []).append(self.k)
+        context.setdefault("c", {})["stamp"] = self.k
+        self.k += 1
+        return (data, context)
+
+
 def _num(i):
     return i + 1
 
@@ -220,6 +253,14 @@ ACCS = [
      lambda: VarianceMeanCount(sum_sq=DSum(), sum_=DSum(), corrected=False), _num),
     ("Vectorize(Sum(),dim=2)", "Vectorize", "compute", lambda: Vectorize(Sum(), dim=2), _vec),
     ("Vectorize([Sum(),Mean()])", "Vectorize", "compute", lambda: Vectorize([Sum(), Mean(pass_on_empty=True)]), _vec),
+    # several values per compute() call: every one of them needs its own context
+    ("Mean(ManySums())", "Mean", "compute", lambda: Mean(sum_seq=ManySums()), _num),
+    ("Vectorize(TwoSums(),dim=2)", "Vectorize", "compute", lambda: Vectorize(TwoSums(), dim=2), _vec),
+    ("Vectorize([ManySums(),Sum()])", "Vectorize", "compute", lambda: Vectorize([ManySums(), Sum()]), _vec),
+    ("Vectorize(Split([Sum(),Mean()]),dim=2)", "Vectorize", "compute",
+     lambda: Vectorize(Split([Sum(), Mean(pass_on_empty=True)]), dim=2), _vec),
+    ("Vectorize((ManySums,Stamp),dim=2)", "Vectorize", "compute",
+     lambda: Vectorize(FillComputeSeq(ManySums(), Stamp()), dim=2), _vec),
     ("Count", "Count", "compute", lambda: Count(), _num),
     ("Count('n',count=3)", "Count", "compute", lambda: Count("n", count=3), _num),
     ("Histogram([0,2,4])", "Histogram", "compute", lambda: Histogram([0, 2, 4]), _num),
@@ -252,6 +293,12 @@ ACCS = [
     ("Split([FillRequest(Sum())x2])", "Split", "request",
      lambda: Split([FillRequest(Sum(), reset=True, buffer_input=True),
                     FillRequest(Sum(), reset=False, buffer_input=True)]), _num),
+    ("Split([Vectorize(TwoSums()),Vectorize(Sum())])", "Split", "compute",
+     lambda: Split([Vectorize(TwoSums(), dim=2), Vectorize(Sum(), dim=2)]), _vec),
+    ("FillComputeSeq(Vectorize(ManySums()),Stamp)", "FillComputeSeq", "compute",
+     lambda: FillComputeSeq(Vectorize(ManySums(), dim=2), Stamp()), _vec),
+    ("Zip([Vectorize(TwoSums()),Vectorize(ManySums())])", "Zip", "compute",
+     lambda: Zip([Vectorize(TwoSums(), dim=2), Vectorize([ManySums(), Sum()])]), _vec),
     ("Zip([Sum(),Mean()])", "Zip", "compute", lambda: Zip([Sum(), Mean(pass_on_empty=True)]), _num),
     ("Zip([Sum(),Count()],fields)", "Zip", "compute",
      lambda: Zip([Sum(), FillCompute(Count())], name="zp", fields=["s", "c"]), _num),
@@ -275,11 +322,18 @@ def mkvalue(i, gen, op):
     return (d, {"c": {"i": i, "deep": {"z": [i]}}, "l": [i, [i]], "t": "v%d" % i})
 
 
-def _call(el, method):
-    """-> ("ok", [values]) | ("exc", type name)"""
+def _call(el, method, on_yield=None):
+    """-> ("ok", [values]) | ("exc", type name); on_yield(k, value) is called for every value before the generator is
+    resumed (values yielded before an exception are not reported: both the element and its twin are treated alike)"""
     try:
         with watchdog(2):
-            return ("ok", list(getattr(el, method)()))
+            if on_yield is None:
+                return ("ok", list(getattr(el, method)()))
+            out = []
+            for y in getattr(el, method)():
+                out.append(y)
+                on_yield(len(out) - 1, y)
+            return ("ok", out)
     except Timeout:
         return ("exc", "NON-TERMINATION")
     except lena.core.LenaException as e:
@@ -290,12 +344,14 @@ def _call(el, method):
 
 def acc_history(name, hist):
     """Run one history; return a list of (fid, what).  ops: F fill (data, nested context), E fill (data, {}),
-    B fill bare data, C compute/request, M mutate every context yielded so far."""
+    B fill bare data, C compute/request, M mutate every context yielded so far, I compute/request consumed value by
+    value, the context of every yielded value being mutated before the generator is resumed."""
     _, cls, method, factory, gen = ACC_BY_NAME[name]
     el = factory()
     twin = factory()
     bad = []
     filled = []          # the very objects that were filled (kept alive)
+    twin_filled = []     # their deep copies that were filled into the twin
     yielded = []         # (position text, value, context object) of everything yielded so far (kept alive)
     identity_failed = False
     base = "%s.%s" % (cls, method)
@@ -308,6 +364,7 @@ def acc_history(name, hist):
             nfill += 1
             filled.append(v)
             tv = copy.deepcopy(v)
+            twin_filled.append(tv)
             r1 = r2 = None
             try:
                 el.fill(v)
@@ -320,15 +377,22 @@ def acc_history(name, hist):
             if r1 != r2 and not identity_failed:
                 bad.append((base + "/later-fill-differs-after-mutation-of-yield",
                             "%s: fill raised %s, the twin that saw no mutation raised %s" % (where, r1, r2)))
-        elif op == "C":
+        elif op in "CI":
             before = canon(filled)
-            res = _call(el, method)
+            snaps = []           # op I: what each value looked like when it was yielded
+
+            def touch(k, y):
+                snaps.append(canon(y))
+                c = ctx_of(y)
+                if c is not None:
+                    mutate_everything(c, "%di%d" % (pos, k))
+            res = _call(el, method, touch if op == "I" else None)
             tres = _call(twin, method)
             after = canon(filled)
             if res == ("exc", "NON-TERMINATION"):
                 bad.append((base + "/non-termination", "%s: %s() did not terminate" % (where, method)))
                 break
-            if before != after and cls not in _COMPUTE_WRITES_FILLED_DOCUMENTED:
+            if op == "C" and before != after and cls not in _COMPUTE_WRITES_FILLED_DOCUMENTED:
                 bad.append((base + "/writes-into-filled-value",
                             "%s: %s() itself changed the filled values (the stored context is the filled object)"
                             % (where, method)))
@@ -357,12 +421,14 @@ def acc_history(name, hist):
                                             "%s: context of value #%d yielded by %s() shares %r with the context of "
                                             "filled value #%d" % (where, k, method, o, fi)))
                     # clause 2: contexts yielded earlier (earlier calls and earlier in this call)
-                    for (ptxt, py, pc) in yielded:
+                    for (ptxt, py, pc, ppos) in yielded:
                         if pc is None:
                             continue
+                        same_call = ppos == pos
                         if c is pc:
                             identity_failed = True
-                            bad.append((base + "/yields-the-stored-context-object-itself",
+                            bad.append((base + ("/one-context-object-yielded-twice-by-the-same-call" if same_call else
+                                                "/yields-the-stored-context-object-itself"),
                                         "%s: value #%d yielded by %s() carries the very context object that was "
                                         "already yielded at %s" % (where, k, method, ptxt)))
                         else:
@@ -370,23 +436,30 @@ def acc_history(name, hist):
                             if common:
                                 identity_failed = True
                                 o = [rc[i] for i in rc if i in common][0]
-                                bad.append((base + "/yielded-context-shares-nested-object-with-earlier-yield",
+                                bad.append((base + "/yielded-context-shares-nested-object-with-earlier-yield"
+                                            + ("-of-the-same-call" if same_call else ""),
                                             "%s: context of value #%d yielded by %s() shares %r with the context "
                                             "yielded at %s" % (where, k, method, o, ptxt)))
-                    yielded.append(("step %d value #%d" % (pos, k), y, c))
+                    yielded.append(("step %d value #%d" % (pos, k), y, c, pos))
             # behavioural consequence, only where the identity graph found nothing (objects it cannot see)
             if not identity_failed:
-                same = res[0] == tres[0] and (
-                    res[1] == tres[1] if res[0] == "exc" else
-                    [canon(y) for y in res[1]] == [canon(y) for y in tres[1]])
-                if not same:
-                    bad.append((base + "/later-result-corrupted-by-mutation-of-earlier-yield",
+                got = res[1] if res[0] == "exc" else (snaps if op == "I" else [canon(y) for y in res[1]])
+                want = tres[1] if tres[0] == "exc" else [canon(y) for y in tres[1]]
+                if res[0] != tres[0] or got != want:
+                    # is the damage done by a mutation made during this very call?
+                    within = (op == "I" and res[0] == tres[0] == "ok" and len(got) == len(want) and got[0] == want[0])
+                    bad.append((base + ("/later-yield-corrupted-by-mutation-of-earlier-yield-of-the-same-call" if within
+                                        else "/later-result-corrupted-by-mutation-of-earlier-yield"),
                                 "%s: %s() gave %s, a twin element that never saw the mutation gave %s"
-                                % (where, method, show(res[1]), show(tres[1]))))
+                                % (where, method, show(got if op == "I" and res[0] == "ok" else res[1]),
+                                   show(tres[1]))))
+                if op == "I" and canon(filled) != canon(twin_filled):
+                    bad.append((base + "/source-corrupted-by-mutation-of-yield",
+                                "%s: mutating the contexts while they were yielded changed the filled values" % where))
         elif op == "M":
             before = canon(filled)
             stamp += 1
-            for (_, _, c) in yielded:
+            for (_, _, c, _) in yielded:
                 if c is not None:
                     mutate_everything(c, stamp)
             if canon(filled) != before and not identity_failed:
@@ -398,6 +471,7 @@ def acc_history(name, hist):
 def valid_history(h):
     """at least one compute; a mutation only after something may have been yielded; no trailing fills/mutations
     (they cannot be observed)"""
+    h = h.replace("I", "C")     # I is a compute/request too (and an observation)
     if "C" not in h or h[-1] != "C" and not (h[-1] == "M" and "C" in h[:-1]):
         return False
     seen_c = False
@@ -460,6 +534,13 @@ FC_KINDS = ["FC:mut;store", "FC:var;lensum", "FC:count;storeeach", "FC:upd;mkfn;
 FC_STOP_KINDS = ["FC:slice2;mut;store"]
 FR_KINDS = ["FR:mut;store", "FR:var;count;sum2"]
 SRC_KINDS = ["SRC:count2"]
+# branches that change the value in place and THEN stop: "<FC|FR>:<mutating element>;slice<K>;<store|sum>" fills the
+# values #0..#K-1 and raises LenaStopFill on value #K, which its mutating element has already updated in place
+_STOP_RE = re.compile(r"^(FC|FR):(mut|var|upd|updrec|mkfn|count);slice(\d+);(store|sum)$")
+
+
+def stop_kinds(types, muts, ks, acc="store"):
+    return ["%s:%s;slice%d;%s" % (t, m, k, acc) for t in types for m in muts for k in ks]
 
 
 def build_branch(kind, j, log):
@@ -491,6 +572,16 @@ def build_branch(kind, j, log):
                               pout, reset=False, buffer_input=True)
     if kind == "SRC:count2":
         return Source(CountFrom(0), Slice(2), pout)
+    m = _STOP_RE.match(kind)
+    if m:
+        typ, mut, k, acc = m.group(1), m.group(2), int(m.group(3)), m.group(4)
+        if typ == "FC":
+            tail = [StoreFilled()] if acc == "store" else [Variable("len" + t, len), Sum()]
+            return FillComputeSeq(pin, _mutating(mut, t), Slice(k), Probe(log, "mid"), *(tail + [pout]))
+        tail = [StoreFilled()] if acc == "store" else [Variable("len" + t, len), Sum()]
+        tail[-1] = FillRequest(tail[-1], reset=True, buffer_input=True)
+        return FillRequestSeq(pin, _mutating(mut, t), Slice(k), Probe(log, "mid"), *(tail + [pout]),
+                              **{"reset": False, "buffer_input": True})
     raise ValueError(kind)
 
 
@@ -685,22 +776,33 @@ def body(R):
     rng = R.rng
     # ------------------------------------------------------------------ A
     maxlen = 5 if R.thorough else 4
-    hists = []
-    for n in range(1, maxlen + 1):
-        for h in itertools.product("FEBCM", repeat=n):
-            h = "".join(h)
-            if valid_history(h):
-                hists.append(h)
+
+    def all_hists(alphabet, n):
+        return [h for h in ("".join(t) for k in range(1, n + 1) for t in itertools.product(alphabet, repeat=k))
+                if valid_history(h)]
+    hists = all_hists("FEBCM", maxlen)
+    hists_i = [h for h in all_hists("FEBCMI" if R.thorough else "FCMI", maxlen) if "I" in h]
+    hists_i_short = [h for h in all_hists("FEBCMI", maxlen - 1) if "I" in h]
+    hists_i = hists_i_short + [h for h in hists_i if h not in set(hists_i_short)]
+    multi = [a[0] for a in ACCS if any(w in a[0] for w in ("TwoSums", "ManySums", "Split(", "Zip("))]
     R.scope("accumulators: %d configurations of Sum, DSum, Mean, VarianceMeanCount, Vectorize, Count, Histogram, "
             "SplitIntoBins, Graph, NumpyHistogram, FillCompute, FillComputeSeq, FillRequest, FillRequestSeq, "
-            "Split, Zip (compute / request)" % len(ACCS),
+            "Split, Zip (compute / request); %d of them yield 2..3 values per call (multi-valued sums inside Mean / "
+            "Vectorize / SplitIntoBins, Vectorize over a Split, Split / Zip of accumulators and of Vectorize)"
+            % (len(ACCS), len(multi)),
             "all histories of length <= %d over {F fill (data, nested context), E fill (data, {}), B fill bare data, "
             "C compute/request, M mutate every object reachable from every context yielded so far} that end in an "
-            "observation (%d histories per configuration); identity graph of each yielded context vs every filled "
-            "context and every earlier yield; twin element without mutations" % (maxlen, len(hists)), True)
+            "observation (%d histories per configuration), plus all such histories that contain I = compute/request "
+            "consumed value by value with every yielded context mutated before the generator is resumed: length <= "
+            "%d (%d histories), and for the several-values-per-call configurations also those of length %d%s (%d "
+            "histories in all); "
+            "identity graph of each yielded context vs every filled context and every earlier yield (of earlier "
+            "calls and of the same call); twin element without mutations"
+            % (maxlen, len(hists), maxlen - 1, len(hists_i_short), maxlen,
+               "" if R.thorough else " over {F,C,M,I}", len(hists_i)), True)
     for acc in ACCS:
         name = acc[0]
-        for h in hists:
+        for h in hists + (hists_i if name in multi else hists_i_short):
             bad = acc_history(name, h)
             R.case("F" in h or "E" in h, {"accumulator": name, "history": h})
             _report(R, bad, "replay_acc", [name, h], {"accumulator": name, "history": h})
@@ -717,11 +819,12 @@ def body(R):
                 _report(R, bad, "replay_acc", [name, h], {"accumulator": name, "history": h})
     nrand = 6000 if R.thorough else 600
     R.scope("accumulators (same configurations)",
-            "%d random histories of length 6..12 over {F,E,B,C,M} (fills weighted 2:1:1, C 3, M 2)" % nrand, False)
+            "%d random histories of length 6..12 over {F,E,B,C,M,I} (fills weighted 2:1:1, C 3, M 2, I 2)" % nrand,
+            False)
     for _ in range(nrand):
         name = rng.choice(ACCS)[0]
         while True:
-            h = "".join(rng.choice("FFEBCCCMM") for _ in range(rng.randint(6, 12)))
+            h = "".join(rng.choice("FFEBCCCMMII") for _ in range(rng.randint(6, 12)))
             h = h.rstrip("FEB")
             while "MM" in h:
                 h = h.replace("MM", "M")
